@@ -948,3 +948,72 @@ func c05Settings(c *Check) {
 		c.Undecidedf("SETTINGS-APPLIED", "load paths", "-", "no function with parse settings in reach constructs a parser: unresolved anchor")
 	}
 }
+
+// sourceTextIntact: what the file reader returned is what the rest of the
+// compiler sees. In the collector every consumer of the content — the text kept
+// for the lexer, and every repository function it is handed to — receives the
+// reader's bytes themselves (converted, never rewritten). A trim, a newline
+// normalisation or any other rewrite between the read and its consumers shifts
+// every recorded position and corrupts binary compiled-model files.
+func sourceTextIntact(c *Check, rule string) {
+	p := c.P
+	ic := findImportClosure(c)
+	if ic == nil || ic.collector == nil {
+		c.Undecidedf(rule, "collector", "-", "import collector not found: unresolved anchor")
+		return
+	}
+	col := ic.collector
+	isContent := func(v ssa.Value) bool {
+		ex, ok := v.(*ssa.Extract)
+		if !ok || ex.Index != 0 {
+			return false
+		}
+		cl, ok := ex.Tuple.(*ssa.Call)
+		return ok && cl.Call.IsInvoke() && cl.Call.Method.Name() == "ReadHashBranch"
+	}
+	n := 0
+	report := func(what string, at ssa.Instruction, v ssa.Value) {
+		off, reached := flowOffender(v, isContent, nil, func(x *ssa.Call) bool {
+			sc := x.Call.StaticCallee()
+			return sc != nil && isRepoFn(sc) // e.g. the import-line extract: derived on purpose
+		})
+		if !reached {
+			return
+		}
+		n++
+		key := fmt.Sprintf("%s|%s", fnName(col), what)
+		if off != nil {
+			callee := "a call"
+			if o := calleeObj(off); o != nil {
+				callee = shortObj(o)
+			}
+			c.Flagf(rule, key, p.pos(off.Pos()), "%s rewrites the file content before %s: positions are then counted in a text that is not the file's, and a binary compiled model is corrupted", callee, what)
+		} else {
+			c.Okf(rule, key, p.pos(at.Pos()), "receives the reader's bytes unaltered")
+		}
+	}
+	eachInstr(col, func(_ *ssa.BasicBlock, i ssa.Instruction) {
+		switch x := i.(type) {
+		case *ssa.Store:
+			if b, ok := x.Val.Type().Underlying().(*types.Basic); ok && b.Kind() == types.String {
+				if _, fld, _, isField := fieldOfAddr(x.Addr); isField {
+					report("the text kept in ."+fld, i, x.Val)
+				}
+			}
+		case *ssa.Call:
+			sc := x.Call.StaticCallee()
+			if sc == nil || !isRepoFn(sc) {
+				return
+			}
+			for _, a := range x.Call.Args {
+				switch a.Type().Underlying().(type) {
+				case *types.Slice, *types.Basic:
+					report("the argument of "+sc.Name(), i, a)
+				}
+			}
+		}
+	})
+	if n == 0 {
+		c.Undecidedf(rule, "consumers", "-", "no consumer of the read content found in the collector: unresolved anchor")
+	}
+}
